@@ -155,13 +155,32 @@ void explore_cfg(const Cfg<Db>& cfg, const std::vector<Op>& alphabet, int depth,
       (unsigned long long)st.states, (unsigned long long)st.transitions, (int)st.fixpoint, jstr(describe(cfg, alphabet[alphabet.size() / 2]) + " ; " + describe(cfg, alphabet[0])).c_str()));
 }
 
+template <class Db>
+void stateless_cfg(const Cfg<Db>& cfg, const std::vector<Op>& alphabet, int depth, const char* kname, Counters& c) {
+  std::map<std::string, std::string> memo;
+  auto expected = [&](const Op& op) -> std::string {
+    std::string mk = fmt("%p/%d/%d", cfg.zones[op.tz], op.opc, op.arg);
+    auto it = memo.find(mk); if (it != memo.end()) return it->second;
+    typename Db::Processor fresh; TimeZone t = TimeZone::forZoneInfo(cfg.zones[op.tz], &fresh);
+    std::string r = observe(t, op.opc, g_args[op.arg]); memo[mk] = r; return r;
+  };
+  auto hist_text = [&](const std::vector<uint16_t>& h, uint16_t a) { std::string s; for (uint16_t x : h) s += describe(cfg, alphabet[x]) + " ; "; return s + describe(cfg, alphabet[a]); };
+  auto before = [&](const std::vector<uint16_t>& h, uint16_t a) { iso_note(fmt("world=%s/%s slots=%d (stateless) history: %s", Db::tag(), kname, cfg.nslots, hist_text(h, a).c_str())); };
+  auto mismatch = [&](const std::vector<uint16_t>& h, uint16_t a, const std::string& got, const std::string& want) {
+    violation(g_pid + ":" + Db::tag() + ":" + kname + ":history-dependent:" + OPN[alphabet[a].opc],
+        fmt("{\"world\":\"%s\",\"slots\":%d,\"exploration\":\"stateless\",\"history\":%s,\"got\":%s,\"fresh_object\":%s}", kname, cfg.nslots, jstr(hist_text(h, a)).c_str(), jstr(got).c_str(), jstr(want).c_str()));
+  };
+  McStats st = explore_stateless<World<Db>, Cfg<Db>, Op>(cfg, alphabet, depth, expected, mismatch, before);
+  c.add("stateless_histories", st.states); c.add("executions", st.executions); c.add("stateless_transitions", st.transitions);
+}
+
 static std::vector<uint16_t> arg_idx(const std::vector<std::string>& names) {
   std::vector<uint16_t> r; for (auto& n : names) for (size_t i = 0; i < g_args.size(); i++) if (g_args[i].name == n) r.push_back(i); return r;
 }
 
 template <class Db> void run_db(const Args& a, Counters& c, int& item) {
   typedef typename Db::Info ZI;
-  struct Job { Cfg<Db> cfg; std::vector<Op> alpha; int depth; const char* kname; };
+  struct Job { Cfg<Db> cfg; std::vector<Op> alpha; int depth; const char* kname; std::vector<Op> salpha; int sdepth = 0; };
   std::vector<Job> jobs;
   // ---- W1: every zone, own processor, all year classes
   std::vector<std::string> all_names; for (auto& g : g_args) all_names.push_back(g.name);
@@ -194,14 +213,20 @@ template <class Db> void run_db(const Args& a, Counters& c, int& item) {
     }
     return al;
   };
+  std::vector<uint16_t> st_args = arg_idx({"y2005", "y2006", "y1997", "y2006jan1"});
+  auto mk_salpha = [&](int ntz) {
+    std::vector<Op> al;
+    for (uint8_t t = 0; t < ntz; t++) for (uint8_t o : {(uint8_t)OP_UTC, (uint8_t)OP_ABBREV, (uint8_t)OP_ODT, (uint8_t)OP_PRINT}) for (uint16_t ai : st_args) { if (o == OP_PRINT && ai != st_args[0]) continue; al.push_back({t, o, ai}); }
+    return al;
+  };
   if (only.empty()) {
     for (size_t i = 0; i < cz.size(); i++) for (size_t k = i + 1; k < cz.size(); k++) {
       if (cz[i] == cz[k]) continue;
-      Job j; j.cfg.kind = K_SHARED; j.cfg.zones = {cz[i], cz[k]}; j.cfg.nslots = 0; j.depth = a.thorough ? 5 : 4; j.kname = "shared2"; j.alpha = mk_alpha(2, sa); jobs.push_back(j);
+      Job j; j.cfg.kind = K_SHARED; j.cfg.zones = {cz[i], cz[k]}; j.cfg.nslots = 0; j.depth = a.thorough ? 5 : 4; j.kname = "shared2"; j.alpha = mk_alpha(2, sa); j.salpha = mk_salpha(2); j.sdepth = a.getl("sdepth", a.thorough ? 4 : 3); jobs.push_back(j);
     }
     for (size_t i = 0; i + 2 < cz.size(); i++) {
       if (cz[i] == cz[i+1] || cz[i+1] == cz[i+2] || cz[i] == cz[i+2]) continue;
-      Job j; j.cfg.kind = K_SHARED; j.cfg.zones = {cz[i], cz[i + 1], cz[i + 2]}; j.cfg.nslots = 0; j.depth = a.thorough ? 5 : 4; j.kname = "shared3"; j.alpha = mk_alpha(3, sa); jobs.push_back(j);
+      Job j; j.cfg.kind = K_SHARED; j.cfg.zones = {cz[i], cz[i + 1], cz[i + 2]}; j.cfg.nslots = 0; j.depth = a.thorough ? 5 : 4; j.kname = "shared3"; j.alpha = mk_alpha(3, sa); j.salpha = mk_salpha(3); j.sdepth = a.getl("sdepth", 3); jobs.push_back(j);
     }
     // ---- W3: managers with N slots holding N+1 / N+2 zones
     std::vector<uint16_t> ma = arg_idx(g_hostile ? std::vector<std::string>{"y2005", "y2006", "y1997", "sentinel", "int32max"} : std::vector<std::string>{"y2005", "y2006", "y1997", "sentinel", "y2006jan1"});
@@ -215,13 +240,14 @@ template <class Db> void run_db(const Args& a, Counters& c, int& item) {
       if ((int)uniq.size() != N + extra) { j.cfg.zones.assign(cz.begin(), cz.begin() + N + extra); }
       j.depth = a.getl("mdepth", a.thorough ? 16 : (N <= 2 ? 10 : 7));
       j.alpha = mk_alpha(N + extra, N >= 3 ? ma2 : ma);
+      j.salpha = mk_salpha(N + extra); j.sdepth = a.getl("sdepth", (a.thorough && N + extra <= 3) ? 4 : 3);
       jobs.push_back(j);
     }
   }
   for (auto& j : jobs) {
     if ((item++ % a.nshards) != a.shard) continue;
     Counters cc;
-    run_isolated(1, 600, [&](long) { g_viol_per_key.clear(); explore_cfg<Db>(j.cfg, j.alpha, j.depth, j.kname, cc); cc.emit(); emit_violation_totals(); },
+    run_isolated(1, 600, [&](long) { g_viol_per_key.clear(); explore_cfg<Db>(j.cfg, j.alpha, j.depth, j.kname, cc); if (j.sdepth) stateless_cfg<Db>(j.cfg, j.salpha, j.sdepth, j.kname, cc); cc.emit(); emit_violation_totals(); },
       [&](long, int status) {
         const char* how = WIFSIGNALED(status) && WTERMSIG(status) == SIGALRM ? "hang" : "crash";
         violation(g_pid + ":" + Db::tag() + ":" + j.kname + ":" + how, fmt("{\"wait_status\":%d,\"last_step\":%s}", status, jstr(iso_last_note()).c_str()));
